@@ -215,6 +215,12 @@ Proof.
     destruct (xml_char c); [|discriminate]. apply IH in H. lia.
 Qed.
 
+Lemma lex_declval_len q s v r : lex_declval q s = Some (v, r) -> (length r < length s)%nat.
+Proof.
+  unfold lex_declval. destruct (span (fun c => negb (c =? q)) s) as [a r0] eqn:E. apply span_len in E.
+  destruct r0 as [|c r']; [discriminate|]. intros H. inversion H; subst. cbn [length] in E. lia.
+Qed.
+
 (* ================================================================== attributes *)
 
 Lemma existsb_false_in {A} (f : A -> bool) l x : existsb f l = false -> In x l -> f x = false.
@@ -300,7 +306,9 @@ Proof.
   pose proof (skip_ws_len r2) as L2.
   destruct (skip_ws r2) as [|q r3]; [discriminate|]. cbn [length] in L2.
   destruct ((q =? 34) || (q =? 39)); [|discriminate].
-  destruct (lex_attval q None [] r3) as [[v r4]|] eqn:Ev; [|discriminate]. apply lex_attval_len in Ev.
+  destruct (if decl then lex_declval q r3 else lex_attval q None [] r3) as [[v r4]|] eqn:Ev; [|discriminate].
+  assert (Lv : (length r4 < length r3)%nat).
+  { destruct decl; [apply lex_declval_len in Ev | apply lex_attval_len in Ev]; exact Ev. }
   destruct (has_key n acc); [discriminate|]. apply IH in H. lia.
 Qed.
 
@@ -330,16 +338,27 @@ Proof. destruct ts as [|t ts]; [intros _; exact I|]. destruct t; cbn; intros H; 
 Lemma stop_attrs a X : stopsp name_char (flat_map attr_text a ++ 62 :: X).
 Proof. destruct a as [|[k v] a]; [reflexivity|]. rewrite attr_text_flat. reflexivity. Qed.
 
-Lemma xlex_print ts : forall fuel, forallb xtok_okb ts = true -> no_adj_txt ts = true ->
-  (length (flat_map xtok_text ts) < fuel)%nat -> xlex fuel (flat_map xtok_text ts) = XLOk ts.
+(* the tokens fit the depth d (the number of open elements): character data only inside an element, no end tag
+   without a start tag *)
+Fixpoint depths (d : nat) (ts : list xtok) : bool :=
+  match ts with
+  | [] => true
+  | XOpen _ _ :: r => depths (S d) r
+  | XEmpty _ _ :: r => depths d r
+  | XClose _ :: r => match d with O => false | S d' => depths d' r end
+  | XTxt _ :: r => match d with O => false | S _ => depths d r end
+  end.
+
+Lemma xlex_print ts : forall fuel d, forallb xtok_okb ts = true -> no_adj_txt ts = true -> depths d ts = true ->
+  (length (flat_map xtok_text ts) < fuel)%nat -> xlex fuel d (flat_map xtok_text ts) = XLOk ts.
 Proof.
-  induction ts as [|t ts IH]; intros fuel Hok Hadj Hf.
+  induction ts as [|t ts IH0]; intros fuel d Hok Hadj Hdep Hf.
   - destruct fuel; [cbn in Hf; lia|]. reflexivity.
   - destruct fuel as [|f]; [lia|].
     cbn [forallb] in Hok. apply andb_true_iff in Hok. destruct Hok as [Ht Hok].
     cbn [no_adj_txt] in Hadj. apply andb_true_iff in Hadj. destruct Hadj as [Ha1 Hadj].
     cbn [flat_map] in *. rewrite app_length in Hf.
-    specialize (IH f Hok Hadj).
+    pose proof (fun d' => IH0 f d' Hok Hadj) as IH. clear IH0.
     set (X := flat_map xtok_text ts) in *.
     destruct t as [n a|n a|n|s]; cbn [xtok_okb] in Ht; [| discriminate | |].
     + (* start tag *)
@@ -357,22 +376,25 @@ Proof.
       rewrite <- En. rewrite (lex_name_app n _ Hn (stop_attrs a X)).
       cbn [length] in Hf. rewrite !app_length in Hf. cbn [length] in Hf. pose proof (attrs_len a) as La.
       rewrite (lex_attrs_print a f [] X Ha Hd); [|intros; reflexivity|lia].
-      cbn [rev app]. rewrite IH by lia. reflexivity.
+      cbn [depths] in Hdep.
+      cbn [rev app]. rewrite (IH (S d) Hdep) by lia. reflexivity.
     + (* end tag *)
       destruct (name_ok_inv n Ht) as [c0 [n' [En [Hc0 Hn']]]].
       cbn [xtok_text] in *.
+      cbn [depths] in Hdep. destruct d as [|d']; [discriminate|].
       assert (Etxt : (60 :: 47 :: n ++ [62]) ++ X = 60 :: 47 :: n ++ 62 :: X).
       { repeat (rewrite <- app_assoc || rewrite <- app_comm_cons). reflexivity. }
       rewrite Etxt. cbn [xlex]. change (60 =? 60) with true. change (47 =? 47) with true. cbv iota.
       rewrite (lex_name_app n (62 :: X) Ht) by reflexivity.
       assert (S1 : forall W, skip_ws (62 :: W) = 62 :: W) by reflexivity. rewrite S1.
       change (62 =? 62) with true. cbv iota.
-      cbn [length] in Hf. rewrite IH by lia. reflexivity.
+      cbn [length] in Hf. rewrite (IH d' Hdep) by lia. reflexivity.
     + (* character data *)
       apply andb_true_iff in Ht. destruct Ht as [Hne Hs].
       destruct s as [|c s']; [discriminate|].
       cbn [is_txt andb] in Ha1. apply negb_true_iff in Ha1.
       cbn [xtok_text] in *.
+      cbn [depths] in Hdep. destruct d as [|d']; [discriminate|].
       assert (E : exists d r0, flat_map esc_text (c :: s') = d :: r0 /\ (d =? 60) = false).
       { cbn [flat_map].
         destruct (esc_text_cases c) as [[_ ->]|[[_ ->]|[[_ ->]|[[_ ->]|[_ [N2 [_ [_ ->]]]]]]]];
@@ -382,7 +404,7 @@ Proof.
       { change (d :: r0 ++ X) with ((d :: r0) ++ X). rewrite <- E.
         rewrite (lex_text_print (c :: s') [] X Hs (tstop_tokens ts Ha1)). reflexivity. }
       rewrite E in *. cbn [app xlex]. rewrite Ed, L.
-      cbn [length] in Hf. rewrite IH by lia. reflexivity.
+      cbn [length] in Hf. rewrite (IH (S d') Hdep) by lia. reflexivity.
 Qed.
 
 Lemma scan_until_len delim s : forall a r, scan_until delim s = Some (a, r) -> (length r <= length s)%nat.
@@ -397,16 +419,16 @@ Qed.
 Lemma xlcons_fuel t r : r <> XLFuel -> xlcons t r <> XLFuel.
 Proof. destruct r; cbn; congruence. Qed.
 
-Lemma xlex_fuel_suffices fuel : forall s, (length s < fuel)%nat -> xlex fuel s <> XLFuel.
+Lemma xlex_fuel_suffices fuel : forall d s, (length s < fuel)%nat -> xlex fuel d s <> XLFuel.
 Proof.
-  induction fuel as [|f IH]; intros s Hf; [lia|].
+  induction fuel as [|f IH]; intros d s Hf; [lia|].
   destruct s as [|c r]; [discriminate|]. cbn [length] in Hf. cbn [xlex].
   destruct (c =? 60) eqn:E60.
   - destruct r as [|c1 r1]; [discriminate|]. cbn [length] in Hf.
     destruct (c1 =? 47).
     { destruct (lex_name r1) as [[n r2]|] eqn:En; [|discriminate]. apply lex_name_len in En.
       pose proof (skip_ws_len r2) as L. destruct (skip_ws r2) as [|e r3]; [discriminate|]. cbn [length] in L.
-      destruct (e =? 62); [|discriminate]. apply xlcons_fuel, IH. lia. }
+      destruct (e =? 62); [|discriminate]. destruct d as [|d']; [discriminate|]. apply xlcons_fuel, IH. lia. }
     destruct (c1 =? 63).
     { destruct (lex_name r1) as [[n r2]|] eqn:En; [|discriminate]. apply lex_name_len in En.
       destruct (is_xml_target n); [discriminate|].
@@ -419,15 +441,19 @@ Proof.
       - apply strip_prefix_len in Ep. destruct (scan_until [45; 45] r2) as [[a [|e r3]]|] eqn:Es; try discriminate.
         apply scan_until_len in Es. cbn [length] in Es. destruct (e =? 62); [|discriminate]. apply IH. lia.
       - destruct (strip_prefix [91; 67; 68; 65; 84; 65; 91] r1) as [r2|] eqn:Ep2; [|discriminate].
-        apply strip_prefix_len in Ep2.
+        apply strip_prefix_len in Ep2. destruct d as [|d']; [discriminate|].
         destruct (scan_until [93; 93; 62] r2) as [[[|t0 t] r3]|] eqn:Es; [ | |discriminate]; apply scan_until_len in Es.
         + apply IH. lia.
         + apply xlcons_fuel, IH. lia. }
     destruct (lex_name (c1 :: r1)) as [[n r2]|] eqn:En; [|discriminate]. apply lex_name_len in En. cbn [length] in En.
     destruct (lex_attrs f false r2 []) as [[[a e] r3]|] eqn:Ea; [|discriminate]. apply lex_attrs_len in Ea.
     destruct e; try discriminate; apply xlcons_fuel, IH; lia.
-  - destruct (lex_text None [] (c :: r)) as [[t r']|] eqn:Et; [|discriminate].
-    apply lex_text_shorter in Et; [|exact E60]. apply xlcons_fuel, IH. lia.
+  - destruct d as [|d'].
+    + destruct (span is_xws (c :: r)) as [w r'] eqn:Es. destruct w as [|w0 w]; [discriminate|].
+      destruct (span_split _ _ _ _ Es) as [Ew _]. apply (f_equal (@length N)) in Ew.
+      cbn [app length] in Ew. rewrite app_length in Ew. apply IH. lia.
+    + destruct (lex_text None [] (c :: r)) as [[t r']|] eqn:Et; [|discriminate].
+      apply lex_text_shorter in Et; [|exact E60]. apply xlcons_fuel, IH. lia.
 Qed.
 
 Lemma merge_txt_id ts : no_adj_txt ts = true -> merge_txt ts = ts.
@@ -448,7 +474,7 @@ Proof.
   - apply Htext.
 Qed.
 
-(* more fuel never changes a result other than "out of fuel" *)
+(* more fuel never changes a result other than out-of-fuel *)
 Lemma xbuild_mono f :
   (forall ts res f', xbuild f ts = res -> res <> BFuel -> (f <= f')%nat -> xbuild f' ts = res) /\
   (forall ts acc res f', xchildren f ts acc = res -> res <> CFuel -> (f <= f')%nat -> xchildren f' ts acc = res).
@@ -621,6 +647,24 @@ Proof.
   - split; cbn; [rewrite H|]; reflexivity.
 Qed.
 
+(* the tokens of a node leave the depth as it is; character data needs an open element *)
+Lemma depths_tokens x : forall d rest, (is_text x = true -> d <> O) -> depths d (xtokens_of x ++ rest) = depths d rest.
+Proof.
+  induction x as [n a ch IH|s] using xnode_ind'; intros d rest Hd.
+  - cbn [xtokens_of app depths]. rewrite <- app_assoc. cbn [app].
+    assert (L : forall rest', depths (S d) (flat_map xtokens_of ch ++ rest') = depths (S d) rest').
+    { clear Hd. induction IH as [|x ch Hx _ IHl]; intros rest'; [reflexivity|].
+      cbn [flat_map]. rewrite <- app_assoc, Hx by (intros _; discriminate). apply IHl. }
+    rewrite L. reflexivity.
+  - cbn [xtokens_of app depths]. destruct d; [exfalso; apply Hd; reflexivity | reflexivity].
+Qed.
+
+Lemma depths_root n a ch : depths 0 (xtokens_of (XElem n a ch)) = true.
+Proof.
+  pose proof (depths_tokens (XElem n a ch) 0%nat [] ltac:(intros H; discriminate H)) as H.
+  rewrite app_nil_r in H. exact H.
+Qed.
+
 (* ================================================================== the characters of printed text *)
 
 (* every printed character is a scalar value and is not a carriage return *)
@@ -724,13 +768,12 @@ Proof.
   destruct (good_tokens _ Hwf) as [G1 G2].
   unfold xml_parse_cps. cbv zeta. rewrite (norm_eol_id _ (print_p _ Hwf)).
   unfold xml_print_cps. rewrite split_decl_print.
-  rewrite (xlex_print _ _ G1 G2) by lia.
+  rewrite (xlex_print _ _ 0%nat G1 G2 (depths_root n a ch)) by lia.
   rewrite (merge_txt_id _ G2).
-  change (drop_ws_txt (xtokens_of (XElem n a ch))) with (xtokens_of (XElem n a ch)).
   rewrite xbuild_tokens. reflexivity.
 Qed.
 
-(* <a b="&#9;&#10;&#13;&quot;&amp;&lt;>]]> ">]]&gt;&#13;&amp;&lt;<c></c>]</a> *)
+(* <a b=[dq]&#9;&#10;&#13;&quot;&amp;&lt;>]]> [dq]>]]&gt;&#13;&amp;&lt;<c></c>]</a> *)
 Example xml_cps_parse_print_ex :
   let x := XElem [97] [([98], [9; 10; 13; 34; 38; 60; 62; 93; 93; 62; 32])]
              [XText [93; 93; 62; 13; 38; 60]; XElem [99] [] []; XText [93]] in
@@ -754,11 +797,10 @@ Theorem xml_parse_cps_total : forall s, xml_parse_cps s <> XFuel.
 Proof.
   intros s. unfold xml_parse_cps. cbv zeta.
   destruct (split_decl (norm_eol s)) as [[d s1]|]; [|discriminate].
-  pose proof (xlex_fuel_suffices (S (length s1)) s1 ltac:(lia)) as H.
-  destruct (xlex (S (length s1)) s1) as [ts| |]; try discriminate; [|congruence].
-  pose proof (xbuild_fuel_suffices (drop_ws_txt (merge_txt ts))) as H2.
-  destruct (xbuild _ (drop_ws_txt (merge_txt ts))) as [root rest| |]; try discriminate; [|congruence].
-  destruct (drop_ws_txt rest); discriminate.
+  pose proof (xlex_fuel_suffices (S (length s1)) 0%nat s1 ltac:(lia)) as H.
+  destruct (xlex (S (length s1)) 0 s1) as [ts| |]; try discriminate; [|congruence].
+  pose proof (xbuild_fuel_suffices (merge_txt ts)) as H2.
+  destruct (xbuild _ (merge_txt ts)) as [root [|t0 rest]| |]; try discriminate. congruence.
 Qed.
 
 (* unclosed nested start tags: an error, not an exhausted budget *)
